@@ -4,7 +4,7 @@
 (* goroutines: with the repairs in place (Bugs = {}) no two accesses of    *)
 (* the programs of two DIFFERENT goroutines conflict, whatever the sharing *)
 (* configuration; hence NoConflict holds in every state of Sharing!Spec    *)
-(* for every G.  Program, Conflict, Step are those of Sharing.tla with     *)
+(* for every G (Safe).  Program, Conflict, Step are those of Sharing.tla with     *)
 (* Bugs = {} substituted (check.py compares the texts on every run).       *)
 (* Checked by tlapm.                                                       *)
 (***************************************************************************)
@@ -33,9 +33,20 @@ Program(g) ==
 NoLock == <<"none", 0>>
 Conflict(a, b) == a.loc = b.loc /\ "w" \in {a.kind, b.kind} /\ (a.lock = NoLock \/ a.lock # b.lock)
 
-VARIABLES pos
+VARIABLES pos, held
+vars == <<pos, held>>
+Locks == {a.lock : a \in UNION {{Program(g)[i] : i \in DOMAIN Program(g)} : g \in Gs}} \ {NoLock}
+Init == pos = [g \in Gs |-> 1] /\ held = [k \in Locks |-> 0]
 Cur(g) == Program(g)[pos[g]]
 Active(g) == pos[g] <= Len(Program(g))
+Step(g) == /\ Active(g)
+           /\ LET a == Cur(g) IN
+              /\ (a.lock # NoLock => held[a.lock] \in (IF a.kind = "r1" THEN {0} ELSE {0, g}))
+              /\ pos' = [pos EXCEPT ![g] = @ + 1]
+              /\ held' = IF a.lock = NoLock \/ a.kind = "r1" THEN held
+                         ELSE IF a.kind = "w" THEN [held EXCEPT ![a.lock] = 0] ELSE [held EXCEPT ![a.lock] = g]
+Next == \E g \in Gs : Step(g)
+Spec == Init /\ [][Next]_vars
 NoConflict == \A g, h \in Gs : (g # h /\ Active(g) /\ Active(h)) => ~Conflict(Cur(g), Cur(h))
 PosOK == pos \in [Gs -> Nat \ {0}]
 
@@ -59,7 +70,7 @@ THEOREM Static == \A g, h \in Nat \ {0} : g # h => \A i, j \in 1..8 : ~Conflict(
 <1> QED BY <1>1, <1>2, <1>3, <1>4
 
 \* hence the state predicate of Sharing.tla holds wherever the positions are positions
-THEOREM PosOK => NoConflict
+THEOREM PosImplies == PosOK => NoConflict
 <1> SUFFICES ASSUME PosOK, NEW g \in Gs, NEW h \in Gs, g # h, Active(g), Active(h)
              PROVE ~Conflict(Cur(g), Cur(h))
   BY DEF NoConflict
@@ -68,4 +79,21 @@ THEOREM PosOK => NoConflict
 <1>2. pos[g] \in 1..8 /\ pos[h] \in 1..8
   BY <1>1, Len8 DEF PosOK, Active
 <1> QED BY <1>1, <1>2, Static DEF Cur
+
+\* ... and they always are
+LEMMA PosInit == Init => PosOK
+  BY DEF Init, PosOK
+LEMMA PosNext == PosOK /\ [Next]_vars => PosOK'
+<1> SUFFICES ASSUME PosOK, [Next]_vars PROVE PosOK'
+  OBVIOUS
+<1>1. ASSUME NEW g \in Gs, Step(g) PROVE PosOK'
+  BY <1>1 DEF Step, PosOK
+<1>2. CASE UNCHANGED vars
+  BY <1>2 DEF vars, PosOK
+<1> QED BY <1>1, <1>2 DEF Next
+
+THEOREM Safe == Spec => []NoConflict
+<1>1. Spec => []PosOK
+  BY PosInit, PosNext, PTL DEF Spec
+<1> QED BY <1>1, PosImplies, PTL
 =============================================================================
